@@ -64,6 +64,10 @@ def gen_obj(rng, ascii_only):
         extra_core=[("var", "Epoch"), ("var", "PreRelease"), ("var", "Post"), ("var", "Dev")],
         build=[("var", "BumpedBranch"), ("var", "Distance"), ("var", "BumpedCommitHashShort")])
     v = objgen.rand_vars(rng, ascii_only=ascii_only, bound=2 ** 32)
+    if rng.random() < 0.06:
+        v["bumped_timestamp"] = rng.choice([10 ** 11 - 1, 10 ** 11, 10 ** 11 + 86400 * 31, 253402300799, 2 ** 33, 2 ** 36])
+    if rng.random() < 0.03:
+        v["last_timestamp"] = rng.choice([10 ** 11, 253402300799, 99999999999])
     clean = lambda s: s.replace(L, "").replace(R, "").replace("\x00", "") if isinstance(s, str) else s
     for k in ("bumped_branch", "bumped_commit_hash", "last_commit_hash", "last_branch"):
         v[k] = clean(v[k])
@@ -178,6 +182,32 @@ def gen_calls(rng, v):
                 args = "separator='%s', lowercase=%s, keep_zeros=%s" % (sep, "true" if lower else "false", "true" if kz else "false")
                 if ml is not None:
                     args += ", max_length=%d" % ml
+                if rng.random() < 0.35:
+                    # a single custom argument: the others take their documented defaults (separator '.', keep case, strip zeros, no limit)
+                    which = rng.choice(["ml", "lower", "kz", "sep"])
+                    sep2, lower2, kz2, ml2 = ".", False, False, None
+                    if which == "ml":
+                        ml2 = rng.choice([0, 1, 3, 7, 12])
+                        args = "max_length=%d" % ml2
+                    elif which == "lower":
+                        lower2 = rng.choice([True, False])
+                        args = "lowercase=%s" % ("true" if lower2 else "false")
+                    elif which == "kz":
+                        kz2 = rng.choice([True, False])
+                        args = "keep_zeros=%s" % ("true" if kz2 else "false")
+                    else:
+                        sep2 = rng.choice(["-", "_", "."])
+                        args = "separator='%s'" % sep2
+                    sep, lower, kz, ml = sep2, lower2, kz2, ml2
+                    if which != "sep":
+                        # no separator argument: the text is kept as it is (documented for the sanitiser: separator none);
+                        # what the statement still fixes is the length limit
+                        def jn(t, ml=ml, text=text):
+                            if ml is not None and len(t) > ml:
+                                return "sanitize(max_length=%d) returned %d characters: %r" % (ml, len(t), t)
+                            return None
+                        calls.append(("sanitize(value=%s, %s)" % (name, args), jn, None))
+                        continue
 
                 def j(t, sep=sep, lower=lower, kz=kz, ml=ml, text=text):
                     adm = san.admissible(text, sep, lower, kz, ml)
